@@ -232,7 +232,7 @@ def make_scaling_harness(n: int, admittance: bool):
     return harness
 
 
-def make_smooth_harness(smoothing: str, num_points: int, order: int, n: int):
+def make_smooth_harness(smoothing: str, num_points: int, order: int, n: int, again: bool = False):
     """the pure-Python smoothing filters leave linear data a + b*i unchanged (up to 1e-9 relative, which absorbs the rounding of
     the concrete kernel coefficients); the filters are linear, so the box |a|,|b| <= 1 covers every line by homogeneity"""
     def harness(eng):
@@ -249,6 +249,12 @@ def make_smooth_harness(smoothing: str, num_points: int, order: int, n: int):
         eng.check(ok, "smoothing:completes", lambda: "%r" % (out,))
         if not ok:
             return
+        if again:
+            # the same filter once more in the same process (Z-HIT smooths one spectrum after the other): no state may be carried over
+            ok, out = call(sm._smooth_phase, smoothing, num_points, order, 3, mk_array(eng, lnw), mk_array(eng, data))
+            eng.check(ok, "smoothing:completes", lambda: "second call: %r" % (out,))
+            if not ok:
+                return
         tol = 1e-9 * (1 + n)
         out = list(out.flat) if hasattr(out, "flat") else list(out)
         eng.check(len(out) == n, "smoothing:one value per point")
@@ -258,6 +264,38 @@ def make_smooth_harness(smoothing: str, num_points: int, order: int, n: int):
                       lambda: "point %d: %r vs %r" % (i, out[i], data[i])) if is_symbolic(d) else eng.check(abs(d) <= tol, "smoothing:linear (and constant) data are left unchanged",
                                                                                                         lambda: "point %d: %r vs %r" % (i, out[i], data[i]))
         eng.reached("smoothing")
+    return harness
+
+
+def make_custom_weights_harness(n: int):
+    """weights given by the caller are the weights used, whatever window name accompanies them: "the offset is determined only by points with
+    non-zero weight" is a statement about the caller's weights"""
+    def harness(eng):
+        import pyimpspec.analysis.zhit.weights as zw
+        ws = [eng.real("w%d" % i, npy=True) for i in range(n)]
+        for w in ws:
+            eng.assume(w >= 0)
+        warr = mk_array(eng, ws)
+        logf = mk_array(eng, [float(n - i) for i in range(n)])
+        window = ("auto", "boxcar", "hann", "triang")[eng.choice(4, "window")]
+        steps = []
+
+        class Prog:
+            def set_message(self, *a, **k):
+                pass
+
+            def increment(self, *a, **k):
+                steps.append(1)
+        ok, opts = call(zw._generate_window_options, warr, logf, window, 1.5, 3.0, Prog())
+        eng.check(ok, "custom weights: accepted", lambda: "%r" % (opts,))
+        if not ok:
+            return
+        eng.check(list(opts.keys()) == ["custom"], "custom weights: they are the only weights used", lambda: "window=%r -> options %r" % (window, list(opts.keys())))
+        if "custom" in opts:
+            got = list(opts["custom"].flat) if hasattr(opts["custom"], "flat") else list(opts["custom"])
+            eng.check(len(got) == n and all(bool(same(g, w)) for g, w in zip(got, ws)), "custom weights: passed on unchanged")
+        eng.check(len(steps) == len(opts), "custom weights: one progress step per option")
+        eng.reached("custom")
     return harness
 
 
@@ -292,6 +330,12 @@ def obligations(tier: str):
                                   functions=[sm._smooth_phase, ms._smooth, ms._extend_data, ms._smooth_except_boundaries, ms.LinearRegression.calculate, wh._smooth, wh._solve],
                                   stubs=["kernel coefficients are the concrete floats the code computes (read as exact rationals); tolerance 1e-9 relative"],
                                   expect_reach=["smoothing"], mode="fresh"))
+        obs.append(Obligation("smooth.%s.twice" % smoothing, make_smooth_harness(smoothing, 5, 2, 9, again=True),
+                              bounds="%s smoothing applied twice in a row in one process (num_points=5, polynomial_order=2, 9 points): the second result obeys the same law" % smoothing,
+                              functions=[sm._smooth_phase, ms._smooth, wh._smooth, wh._solve], expect_reach=["smoothing"], mode="fresh"))
+    import pyimpspec.analysis.zhit.weights as zw
+    obs.append(Obligation("window.custom", make_custom_weights_harness(n), bounds="%d symbolic non-negative custom weights together with window = auto / boxcar / hann / triang" % n,
+                          functions=[zw._generate_window_options], expect_reach=["custom"]))
     for o in obs:
         o.replay = o.harness
     return obs
